@@ -130,3 +130,21 @@ package couchbase
 //@ trusted
 //@ ensures result != nil
 //@ modifies nothing
+
+// ---------- server version as reported (C18) ----------
+// Assumed: an HTTP round trip fills the object it was handed and writes nothing else that is modelled.
+//@ extern couchbase.(*httpClient).doRequest
+//@ params h req v
+//@ modifies fields(as(v, "*PoolsResult")), fields(as(v, "*BucketInfo"))
+
+// The version the gates compare is parsed from the server's implementationVersion string as reported:
+// whole string, one parse, no editing (the build number is part of the order).
+//@ func (*httpClient).GetVersion
+//@ params h
+//@ props C18
+//@ requires h != nil
+//@ let reported = as(darg("couchbase.(*httpClient).doRequest", 0, v), "*PoolsResult").ImplementationVersion
+//@ ensures.asked_once[C18] dcalls("couchbase.(*httpClient).doRequest") == 1
+//@ ensures.parsed_as_reported[C18] result1 == nil ==> dcalls("couchbase.nodeVersionFromString") == 1 && darg("couchbase.nodeVersionFromString", 0, version) == reported && result0 == dret("couchbase.nodeVersionFromString", 0, 0) && dret("couchbase.nodeVersionFromString", 0, 1) == nil
+//@ ensures.errors_surface[C18] dret("couchbase.(*httpClient).doRequest", 0, 0) != nil ==> result1 != nil && result0 == nil
+//@ modifies anything
